@@ -136,6 +136,9 @@ def _walk_common(res, reach):
             if len(sig) > 1:
                 reach.probe("slsqp-retry-taken")
         obs = rec.get("obs") or {}
+        mon = rec.get("mon") or {}
+        if mon.get("canary_redelivered"):
+            reach.probe(f"once-per-location-warning-memory-reset-during:{rec['op']}:by-{'optyx' if mon.get('filters_mutated_by_optyx') else 'scipy-or-numpy'}")
         if obs.get("status") == "failed":
             reach.probe("status-FAILED")
         if obs.get("exc") == "KeyboardInterrupt":
@@ -211,6 +214,8 @@ def judge_monitor(prop, res):
             out.append(_finding(prop, "showwarning-not-restored", rec, "warnings.showwarning is not the hook installed before the call"))
         if not m["reclimit_ok"]:
             out.append(_finding(prop, "recursionlimit-not-restored", rec, f"sys.getrecursionlimit()={m['reclimit']}"))
+        if not m.get("filters_ok", True):
+            out.append(_finding(prop, "warning-filters-not-restored", rec, "warnings.filters is not the list (or not the entries) the application installed before the call"))
     return out
 
 
